@@ -61,9 +61,9 @@ theorem C04_squeeth_rejected_trade_returns_nothing (cx : NumCtx) (e : Env) (s : 
   have key : ∀ (r : Uni.Res), (fromUni s r).err ≠ none → (fromUni s r).out = [] := by
     intro r hr
     unfold fromUni at hr ⊢
-    cases r.1 with
-    | ok v => simp at hr
-    | error er => rfl
+    cases h1 : r.1 with
+    | ok v => simp [h1] at hr
+    | error er => simp [Res.fail]
   cases op with
   | buy o q =>
     simp only [step, stepBody, Op.isAtomic, Bool.false_eq_true, if_false, buySqueethOp] at h ⊢
